@@ -233,9 +233,27 @@ impl C19 {
                 ax.write_fs(edge_val(rng));
                 ax.write_gs(edge_val(rng));
             }
+            // a resize no host can satisfy (it must fail and leave the area as it was) before the steps
+            if rng.below(8) == 0 {
+                let areas = ax.verif_area_lengths();
+                if !areas.is_empty() {
+                    let (st, _) = areas[rng.below(areas.len() as u64) as usize];
+                    if st != code_at {
+                        let r = call(|| ax.mem_resize_section(st, *rng.pick(&[1u64 << 56, 0x7000_0000_0000_0000, 1u64 << 62])));
+                        if r.is_panic() {
+                            col.violation_case(&format!("panic:{}", r.panic_key()), k, format!("{} :: mem_resize_section to an unallocatable size: {}", desc, r.describe()), json!({"layout": desc, "batch_index": j}));
+                        }
+                    }
+                }
+            }
             let steps = *rng.pick(&[1u32, 1, 2, 3, 6]);
             let mut outcome = "ok";
             for s in 0..steps {
+                // between two steps the code loses its execute permission: the next fetch fails, and the error is
+                // rendered with a trace whose entries point at code that can no longer be decoded
+                if s > 0 && rng.below(6) == 0 {
+                    let _ = call(|| ax.mem_prot(code_at, 1));
+                }
                 let r = call(|| block_on(ax.step()));
                 col.eval(1);
                 match &r {
